@@ -20,7 +20,7 @@ ASSUMPTIONS = ["authenticated encryption and HMAC are unforgeable (symbolic term
 def nontrivial(c):
     f = c.fields[4] if c.kind == "usertok" else ""
     try:
-        return c.kind == "tokeninfo" or bytes.fromhex(f if f != "-" else "").count(b".") == 4
+        return c.kind in ("tokeninfo", "exact") or bytes.fromhex(f if f != "-" else "").count(b".") == 4
     except ValueError:
         return False
 
